@@ -800,3 +800,4 @@ def _byte_bounded(self, cx):
 StrC.bounded = _str_bounded
 RegexC.bounded = _regex_bounded
 ByteC.bounded = _byte_bounded
+StrC.crosscheck_with_bounded = RegexC.crosscheck_with_bounded = ByteC.crosscheck_with_bounded = True
